@@ -125,6 +125,9 @@ def analyse(ctx, F, body, MA, FA):
             feas.append(e)
         elif e.src_call is not None and FA.call_infallible(e.src_call):
             continue
+        elif e.src_call is None and e.kind == 'try' and e.src_local is not None and FA.value_infallible(body, e.src_local):
+            # `?` on a Result assembled in place (the return value of an inlined helper) none of whose definitions can fail
+            continue
         else:
             feas.append(e)
     n_pairs = 0
@@ -157,15 +160,19 @@ def analyse(ctx, F, body, MA, FA):
 
 
 @rule('C10', 'atomic', configs=('default', 'p256'))
-def atomic(ctx):
+def atomic(ctx, only=None):
+    """only: regex restricting the functions examined (used by the properties that delegate one clause to this rule)."""
     F = ctx.F
     MA = lib.MutAnalysis(F)
     FA = lib.Fallibility(F)
     seen = 0
     CG = lib.CallGraph(F)
     reach = CG.reachable(lib.api_roots(F))
+    only_re = re.compile(only) if only else None
     for body in F.fns():
         if body.kind == 'Closure':
+            continue
+        if only_re is not None and not only_re.search(body.key):
             continue
         r = analyse(ctx, F, body, MA, FA)
         if r is None:
@@ -187,6 +194,9 @@ def atomic(ctx):
                     'call leaves the key modified' % (pname, w.desc[:100], w.ln, e.desc[:120], e.ln),
                     body.where(e.ln),
                     path={'writes': [(x.desc[:100], x.ln) for x in ws[:6]], 'error_exit': (e.desc, e.ln)})
+    if only_re is not None:
+        ctx.floor(seen, 4, 'functions examined (restricted)')
+        return
     missing = [k for k in EXPECTED if k not in F.bodies]
     for k in missing:
         ctx.bad('-', 'anchor-missing:' + k, 'function %s named by the property is gone' % k)
